@@ -16,7 +16,9 @@ package main
 
 import (
 	"encoding/hex"
+
 	"fmt"
+	"github.com/ipni/go-libipni/mautil"
 	"runtime/debug"
 
 	"verif/harness/vlib"
@@ -71,6 +73,9 @@ func main() {
 	c.Family("clean", mautilReq, "clean_case_ok", 400)
 	c.Family("eq", mautilReq, "eq_case_ok", 500)
 	c.Family("sync", maurlReq, "sync_case_ok", 300)
+	c.Family("strs", mautilReq, "strs_case_ok", 400)
+	c.Family("peers", mautilReq, "peers_case_ok", 400)
+	c.Family("netaddr", maurlReq, "netaddr_case_ok", 400)
 	initPool()
 
 	if c.Replay != "" {
@@ -93,6 +98,8 @@ func main() {
 	runURL(c)
 	runToURL(c)
 	runLists(c)
+	runChain(c)
+	runParse(c)
 	runSyncCases(c)
 }
 
@@ -115,6 +122,19 @@ func runReplay(c *vlib.Ctx, r replay) {
 		doList(c, r.Fn, fromNames(r.A), true)
 	case "eq":
 		doEq(c, fromNames(r.A), fromNames(r.B), true)
+	case "strs", "peers", "netaddr":
+		fmt.Printf("%s %q\n", r.Kind, r.A)
+		switch r.Kind {
+		case "strs":
+			out, err := mautil.StringsToMultiaddrs(r.A)
+			fmt.Println(" ->", out, err)
+		case "peers":
+			out, err := mautil.ParsePeers(r.A)
+			fmt.Println(" ->", out, err)
+		default:
+			out, err := mautil.MultiaddrStringToNetAddr(r.A[0])
+			fmt.Println(" ->", out, err)
+		}
 	case "sync":
 		p, _ := hex.DecodeString(r.Path)
 		w := newSyncWorld()
